@@ -16,6 +16,7 @@ Step(a) ==
     \/ a.op = "Query" /\ Query(ToSet(a.P), a.alg, a.api)
     \/ a.op = "QueryRace" /\ QueryRace(a.p, a.alg, a.api, a.c, a.ino, a.mt, a.when)
     \/ a.op = "Inject" /\ Inject(a.p, a.kind)
+    \/ a.op = "ApplyOver" /\ ApplyOver(a.p, a.c, a.lt, a.ino, a.mt)
     \/ a.op = "Snapshot" /\ Snapshot
     \/ a.op = "Carry" /\ Carry
 Match == /\ Have /\ Step(Ev.act)
